@@ -2,7 +2,7 @@
 from .. import container
 from ..core import Sub, build_machine, run_history
 
-PROP = {'id': 'C10', 'level': 'exploration', 'technique': 'Hypothesis RuleBasedStateMachine over histories with several mutations per write context and several contexts; after every mutation, still inside the context: Tdf.entries == independent parse of the file bytes at that instant == entries seen by a second read-only Tdf object; nBytes == stat == bytes read; every decodable block read through the open object re-encodes to the bytes on disk', 'level_text': 'Exploration with two independent observers at every step of a history (not only at the end): a plain open()+reftdf parse while the library still holds the file open, and a second Tdf object. Catches missing flushes and memory-only or disk-only updates.', 'level_note': 'Trusted: reftdf.parse_container; Linux semantics for reading a file that another handle holds open for writing.', 'design_ref': 'DESIGN.md section 4, C10', 'rule': 'case = {init image, ops}; non-trivial = at least two mutations inside one write context; distinct by sha1 of the history', 'assumptions': []}
+PROP = {'id': 'C10', 'level': 'exploration', 'technique': 'Hypothesis RuleBasedStateMachine over histories with several mutations per write context and several contexts; after every mutation, still inside the context: Tdf.entries == independent parse of the file bytes at that instant == entries seen by a second read-only Tdf object; nBytes == stat == bytes read; every decodable block read through the open object re-encodes to the bytes on disk; enumerated scripts; histories and scripts repeated with the process in a non-UTC zone with daylight saving time', 'level_text': 'Exploration with two independent observers at every step of a history (not only at the end): a plain open()+reftdf parse while the library still holds the file open, and a second Tdf object. Catches missing flushes and memory-only or disk-only updates.', 'level_note': 'Trusted: reftdf.parse_container; Linux semantics for reading a file that another handle holds open for writing.', 'design_ref': 'DESIGN.md section 4, C10', 'rule': 'case = {init image, ops}; non-trivial = at least two mutations inside one write context; distinct by sha1 of the history', 'assumptions': []}
 
 GROUPS = {"C10"}
 REFUSALS = False
